@@ -307,6 +307,8 @@ class SymInt:
 # helpers injected into rewritten modules
 # ---------------------------------------------------------------------------
 def sym_in(a, b):
+    if not isinstance(a, str) and hasattr(a, "isin") and isinstance(b, (str, tuple, list, set, frozenset)):
+        return a.isin(b)  # symbolic character (symtext.SymChar)
     if isinstance(a, SymStr) and a.conc is None and isinstance(b, (set, frozenset, tuple, list, dict)):
         if isinstance(b, dict):
             b = list(b.keys())
